@@ -100,6 +100,9 @@ def _structure(
     # The set of all known dependencies to a node
     node_deps: OrderedDict[DDSPath, Set[DDSPath]] = OrderedDict()
     deps: OrderedDict[Tuple[DDSPath, DDSPath], Edge] = OrderedDict()
+    # The indirect (load) edges are kept apart: a function may both depend on the keep of a path
+    # and load this path, these are two different edges between the same pair of nodes.
+    indirect_edges: OrderedDict[Tuple[DDSPath, DDSPath], Edge] = OrderedDict()
 
     # Returns the list of head nodes:
     # All the nodes that can be evaluated independently inside a function.
@@ -146,6 +149,7 @@ def _structure(
                         k = (k1, k2)
                         if (
                             k not in deps
+                            and k not in indirect_edges
                             and k2 not in node_deps[k1]
                             and k1 not in node_deps[k2]
                             and k1 not in sub_set
@@ -178,9 +182,11 @@ def _structure(
                 if p not in nodes:
                     nodes[p] = Node(p, sig2)
                 k = (p, res_node.path)
-                if k not in deps:
-                    deps[k] = Edge(p, res_node.path, IndirectEdge)
+                if k not in indirect_edges:
+                    indirect_edges[k] = Edge(p, res_node.path, IndirectEdge)
             return [res_node]
 
     traverse(fis)
-    return Graph(list(nodes.values()), list(deps.values()))
+    return Graph(
+        list(nodes.values()), list(deps.values()) + list(indirect_edges.values())
+    )
